@@ -38,6 +38,23 @@ type LenFlow struct {
 	Def ast.Node
 	// MinLen is the minimum length X has at its definition.
 	MinLen int64
+	// DefDom, when set, is the length set X has at its definition (format of
+	// ResultLen) instead of [MinLen, inf).  ErrVar/DomOK/DomErr correlate it
+	// with an error variable assigned by the same statement: on the
+	// `ErrVar != nil` edge the length set is intersected with DomErr, on the
+	// nil edge with DomOK (X is a result of a summarised helper call).
+	DefDom string
+	ErrVar types.Object
+	DomOK  string
+	DomErr string
+	// Describe, when set, is appended to a counterexample length.
+	Describe func(l int64) string
+	// Value switches the engine to "value mode": X is an integer variable
+	// (typically a parameter) and the tracked quantity "L" is its VALUE, not
+	// a length.  MinLen is then the smallest value (LenNegInf for signed).
+	// There are no index obligations; clients read Result.Exits and ask
+	// ValueSet for the values of X that reach an exit.
+	Value bool
 	// Src lists expressions whose value determines len(X) (the argument of
 	// strings.Split): a condition mentioning one of them is "correlated".
 	Src []ast.Expr
@@ -281,7 +298,143 @@ func (lf *LenFlow) isX(e ast.Expr) bool {
 	return ok && ObjOf(lf.info, id) == lf.X
 }
 
+func (lf *LenFlow) describe(l int64) string {
+	if lf.Describe == nil {
+		return ""
+	}
+	return lf.Describe(l)
+}
+
+func (d lenDom) meet(e lenDom) lenDom {
+	var out lenDom
+	for _, iv := range e {
+		out = out.union(d.intersect(iv.lo, iv.hi))
+	}
+	return out
+}
+
+// LenDomUnion joins two length sets in the textual format of ResultLen.
+func LenDomUnion(a, b string) string {
+	return parseLenDom(a).union(parseLenDom(b)).String()
+}
+
+// ResultLen gives the set of lengths of e under state s, where e is the
+// tracked slice itself, a slice expression of it, or nil (length 0):
+// the textual length set, the constant off with len(e) = len(X)+off (only
+// meaningful when rel is true), and whether the path was free of
+// uninterpreted length-correlated conditions.
+func (lf *LenFlow) ResultLen(e ast.Expr, s S) (set string, off int64, rel, exact, ok bool) {
+	exact = s.Get("u") == ""
+	e = ast.Unparen(e)
+	if IsNilIdent(lf.info, e) {
+		return lenDom{{0, 0}}.String(), 0, false, exact, true
+	}
+	if !s.Has("L") {
+		return "", 0, false, false, false
+	}
+	dom := parseLenDom(s.Get("L"))
+	if len(dom) == 0 {
+		return "", 0, false, false, false
+	}
+	if lf.isX(e) {
+		return dom.String(), 0, true, exact, true
+	}
+	se, isSlice := e.(*ast.SliceExpr)
+	if !isSlice || !lf.isX(se.X) || se.Max != nil {
+		return "", 0, false, false, false
+	}
+	lo := lenConstLin(0)
+	hi := lenLin{cL: 1, at: map[types.Object]int64{}, dv: map[string]int64{}}
+	ok1, ok2 := true, true
+	if se.Low != nil {
+		lo, ok1 = lf.lin(se.Low, s)
+	}
+	if se.High != nil {
+		hi, ok2 = lf.lin(se.High, s)
+	}
+	if !ok1 || !ok2 {
+		return "", 0, false, false, false
+	}
+	n := hi.add(lo, -1)
+	if len(n.at) > 0 || len(n.dv) > 0 || (n.cL != 0 && n.cL != 1) {
+		return "", 0, false, false, false
+	}
+	if n.cL == 0 {
+		if n.c0 < 0 {
+			return "", 0, false, false, false
+		}
+		return lenDom{{n.c0, n.c0}}.String(), 0, false, exact, true
+	}
+	var out lenDom
+	for _, iv := range dom {
+		a, b := iv.lo+n.c0, iv.hi
+		if b < lenInf {
+			b += n.c0
+		}
+		if a < 0 {
+			a = 0 // such lengths panic at the slice itself (its own obligation)
+		}
+		if a <= b {
+			out = out.union(lenDom{{a, b}})
+		}
+	}
+	if len(out) == 0 {
+		return "", 0, false, false, false
+	}
+	return out.String(), n.c0, true, exact, true
+}
+
+// LenNegInf is the MinLen of a signed integer in value mode.
+const LenNegInf = -lenInf
+
+// ValueSet renders the values of X (value mode) or lengths that reach a state,
+// plus one concrete member; ok=false when none, correlated=true when the path
+// passed an uninterpreted condition on X.
+func (lf *LenFlow) ValueSet(s S) (set string, sample int64, correlated, ok bool) {
+	if !s.Has("L") {
+		return "", 0, false, false
+	}
+	d := parseLenDom(s.Get("L"))
+	if len(d) == 0 {
+		return "", 0, false, false
+	}
+	var parts []string
+	for _, iv := range d {
+		lo, hi := fmt.Sprint(iv.lo), fmt.Sprint(iv.hi)
+		if iv.lo <= -lenInf {
+			lo = "-inf"
+		}
+		if iv.hi >= lenInf {
+			hi = "+inf"
+		}
+		if lo == hi {
+			parts = append(parts, lo)
+		} else {
+			parts = append(parts, lo+".."+hi)
+		}
+	}
+	// prefer a small concrete member
+	sample = d[0].lo
+	for _, iv := range d {
+		if iv.lo <= 0 && 0 <= iv.hi {
+			sample = 0
+			break
+		}
+		if iv.lo > -lenInf {
+			sample = iv.lo
+			break
+		}
+		if iv.hi < lenInf {
+			sample = iv.hi
+		}
+	}
+	return strings.Join(parts, ","), sample, s.Get("u") != "", true
+}
+
 func (lf *LenFlow) isLenOfX(e ast.Expr) bool {
+	if lf.Value {
+		return false
+	}
 	c, ok := ast.Unparen(e).(*ast.CallExpr)
 	if !ok || len(c.Args) != 1 {
 		return false
@@ -755,6 +908,12 @@ func (lf *LenFlow) EvalSym(e ast.Expr, s S) (LenSym, bool) {
 	if c, ok := ConstInt(lf.info, e); ok {
 		return LenSym{Kind: 'c', C: c}, true
 	}
+	if lf.Value && lf.isX(e) {
+		if !s.Has("L") {
+			return LenSym{}, false
+		}
+		return LenSym{Kind: 'l'}, true
+	}
 	switch x := e.(type) {
 	case *ast.Ident:
 		o := ObjOf(lf.info, x)
@@ -1080,7 +1239,7 @@ func (lf *LenFlow) refute(g lenLin, dom lenDom, s S) (string, bool) {
 		base := g.c0 + g.cL*l + evalDv(l)
 		if lp == nil {
 			if base < 0 {
-				return fmt.Sprintf("len=%d", l), true
+				return fmt.Sprintf("len=%d", l) + lf.describe(l), true
 			}
 			continue
 		}
@@ -1107,7 +1266,7 @@ func (lf *LenFlow) refute(g lenLin, dom lenDom, s S) (string, bool) {
 		}
 		for i := lp.lo; i <= hi && i < lp.lo+4096*lp.step; i += lp.step {
 			if base+ci*i < 0 {
-				return fmt.Sprintf("len=%d, %s=%d", l, lp.v.Name(), i), true
+				return fmt.Sprintf("len=%d%s, %s=%d", l, lf.describe(l), lp.v.Name(), i), true
 			}
 		}
 	}
@@ -1322,7 +1481,11 @@ func (lf *LenFlow) node(n ast.Node, s S) []S {
 	switch y := n.(type) {
 	case *ast.AssignStmt:
 		if ast.Node(y) == lf.Def {
-			s = s.Set("L", lenDom{{lf.MinLen, lenInf}}.String())
+			if lf.DefDom != "" {
+				s = s.Set("L", lf.DefDom)
+			} else {
+				s = s.Set("L", lenDom{{lf.MinLen, lenInf}}.String())
+			}
 		}
 		if len(y.Lhs) == len(y.Rhs) {
 			// evaluate all right-hand sides in the old state
@@ -1421,6 +1584,19 @@ func (lf *LenFlow) evalCond(e ast.Expr, s S) []lenSV {
 	}
 	// leaf
 	lf.sitesIn(e, s)
+	if lf.ErrVar != nil && s.Has("L") {
+		if x, trueIsErr, ok := ErrCheck(lf.info, e); ok && ObjOf(lf.info, x) == lf.ErrVar {
+			dom := parseLenDom(s.Get("L"))
+			var out []lenSV
+			if d := dom.meet(parseLenDom(lf.DomErr)); len(d) > 0 {
+				out = append(out, lenSV{s.Set("L", d.String()), trueIsErr})
+			}
+			if d := dom.meet(parseLenDom(lf.DomOK)); len(d) > 0 {
+				out = append(out, lenSV{s.Set("L", d.String()), !trueIsErr})
+			}
+			return out
+		}
+	}
 	if a, b, op, ok := CmpAtom(e); ok {
 		if r, ok := lf.cmpLeaf(a, b, op, s); ok {
 			return r
